@@ -271,7 +271,7 @@ def resolve_bundle(case, n):
       vals = [cell_values(r.get('v'), ti, here_new) for r in rows]
       labels_a = ['a%d_%d' % (ai, j) for j in range(len(rows))]
       if single:
-        uas.append(['AddRecord', t, ids[0], dict(vals[0], A=labels_a[0])])
+        uas.append(['AddRecord', t, ids[0], dict(vals[0], A=labels_a[0], **({'E': 'e%d' % ai} if ai % 3 == 1 else {}))])
       else:
         cols = sorted(set(c for v in vals for c in v))
         cv = {'A': labels_a}
@@ -298,7 +298,7 @@ def resolve_bundle(case, n):
       if any(x[0] < 0 and not x[1] for x in resolved):
         labels.add('use:update-by-temp-id')
       if len(resolved) == 1 and (single or unk_rows):
-        uas.append(['UpdateRecord', t, resolved[0][0], dict(vals[0], A='u%d' % ai)])
+        uas.append(['UpdateRecord', t, resolved[0][0], dict(vals[0], A='u%d' % ai, **({'E': 'e%d' % ai} if ai % 3 == 2 else {}))])
       else:
         cols = sorted(set(c for v in vals for c in v))
         cv = {'A': ['u%d_%d' % (ai, j) for j in range(len(resolved))]}
@@ -444,7 +444,11 @@ def make_doc():
     ['AddTable', 'Tab1', [c('A', 'Text'), c('R1', 'Ref:Tab1'), c('L1', 'RefList:Tab1')]],
     ['AddTable', 'Tab2', [c('A', 'Text'), c('R1', 'Ref:Tab1'), c('R2', 'Ref:Tab2'), c('L1', 'RefList:Tab1'),
                           c('L2', 'RefList:Tab2')]],
-    ['AddColumn', 'Tab1', 'R2', c('R2', 'Ref:Tab2')], ['AddColumn', 'Tab1', 'L2', c('L2', 'RefList:Tab2')]])
+    ['AddColumn', 'Tab1', 'R2', c('R2', 'Ref:Tab2')], ['AddColumn', 'Tab1', 'L2', c('L2', 'RefList:Tab2')],
+    # a blank column in each table (as the client's "add column" creates them): the first value written into it
+    # turns it into a data column in the middle of the bundle. Its cells are not part of the comparison.
+    ['AddColumn', 'Tab1', 'E', {'type': 'Any', 'isFormula': True, 'formula': ''}],
+    ['AddColumn', 'Tab2', 'E', {'type': 'Any', 'isFormula': True, 'formula': ''}]])
   if not r.ok:
     raise RuntimeError('setup failed: %r' % (r.error,))
   return d
